@@ -301,7 +301,8 @@ if __name__ == "__main__":
 
 
 def gen_all():
-    out = {"shape": gen_shape()}
+    import sites
+    out = {"shape": gen_shape(), "effects": gen_effects(), "api": gen_api(), "sites": sites.gen_sites()}
     return out
 
 
